@@ -874,11 +874,16 @@ func (s *Sim) resolveState(a *Action, bs *BState) (string, string) {
 		sort.Strings(ks)
 		return ks
 	}
+	// what a browser sends back is the state it saw in the start redirect (never something it
+	// would have to read out of the server-side session)
+	cur := ""
+	if ks := keys(bs.OAuthState); len(ks) > 0 {
+		cur = ks[0]
+	}
 	switch a.Cls {
 	case "own":
-		// what the session currently holds is what a browser would send back
-		if v := s.W.Sess.Of(bs.B)["oauth2_state"]; v != "" {
-			return v, "own"
+		if cur != "" {
+			return cur, "own"
 		}
 	case "empty":
 		return "", "empty"
@@ -900,15 +905,15 @@ func (s *Sim) resolveState(a *Action, bs *BState) (string, string) {
 			return ks[s.R.Intn(len(ks))], "spent"
 		}
 	case "prefix":
-		if v := s.W.Sess.Of(bs.B)["oauth2_state"]; len(v) > 2 {
+		if v := cur; len(v) > 2 {
 			return v[:len(v)-1], "prefix"
 		}
 	case "extended":
-		if v := s.W.Sess.Of(bs.B)["oauth2_state"]; v != "" {
+		if v := cur; v != "" {
 			return v + "A", "extended"
 		}
 	case "caseflip":
-		if v := s.W.Sess.Of(bs.B)["oauth2_state"]; v != "" {
+		if v := cur; v != "" {
 			if f := flipCase(v); f != v {
 				return f, "caseflip"
 			}
